@@ -133,7 +133,22 @@ fn check_addr(a: [u8; 20], rep: &mut Report) {
 }
 
 fn gen(rng: &mut Rng) -> (Vec<u8>, &'static str) {
-    match rng.below(8) {
+    match rng.below(11) {
+        8 | 9 => {
+            // generated EOF containers (sections, sub-containers, data) ...
+            let (ic, uf) = (rng.chance(1, 3), rng.chance(1, 2));
+            let b = crate::eofgen::gen_container(rng, &crate::eofgen::GenCfg { n_subcontainers_max: 2, depth: 1, initcode: ic, addrs: vec![[0x11; 20]], allow_unfilled: uf });
+            (b.bytes, "eof-generated")
+        }
+        10 => {
+            // ... and the same with part of the data section missing (decodes: data not filled)
+            let b = crate::eofgen::gen_container(rng, &crate::eofgen::GenCfg { n_subcontainers_max: 1, depth: 1, initcode: false, addrs: vec![[0x11; 20]], allow_unfilled: false });
+            let mut v = b.bytes;
+            let cut = 1 + rng.usize(6);
+            let n = v.len().saturating_sub(cut);
+            v.truncate(n);
+            (v, "eof-generated-truncated-data")
+        }
         0 => (rng.bytes_below(200), "random"),
         1 => {
             let mut v = vec![0xef, 0x00];
